@@ -48,6 +48,11 @@ class Traj:
 
     def advance(self, n, cfl, dtlocal):
         """Make sure at least n steps exist (all with this cfl / directive)."""
+        with np.errstate(all="ignore"):  # the model is immune to a leaked numpy error state
+            self._advance(n, cfl, dtlocal)
+        return self
+
+    def _advance(self, n, cfl, dtlocal):
         while len(self.states) - 1 < n and not self.broken:
             k = len(self.states) - 1
             self.clones[k] = self._clone_integ()
@@ -74,7 +79,8 @@ class Traj:
         if self.has_memory:
             memo = {id(integ.modeldisc): integ.modeldisc, id(integ.mesh): integ.mesh}
             integ = copy.deepcopy(integ, memo)
-        integ.step(q, dt)
+        with np.errstate(all="ignore"):
+            integ.step(q, dt)
         return q
 
     def truncated(self, n):
